@@ -281,9 +281,17 @@ def render_source(sc):
     def names(l):
         return "[" + ", ".join(repr(cbname(nm)) for nm in l) + "]"
 
-    style = sc.get("evstyle", "str")
-    out.append("class M(StateMachine):")
-    for i in range(sc["n"]):
+    style = sc.get("evstyle", "str")          # how events are attached: str / list / obj / assign / event_ctor
+    tstyle = sc.get("tstyle", "to")           # how transitions are created: to / from / multi / multi_from
+    sstyle = sc.get("sstyle", "attr")         # how states are declared: attr / dict / enum
+    inherit = bool(sc.get("inherit"))         # states and transitions live in a base class
+    imports = {"State", "StateMachine"}
+    body = []
+
+    def S(i):
+        return f"s{i}" if sstyle == "attr" else f"states.s{i}"
+
+    def state_args(i):
         st = sc["states"][i]
         args = []
         if sc.get("values") and sc["values"][i] is not None:
@@ -296,14 +304,31 @@ def render_source(sc):
             args.append(f"enter={names(st['enter'])}")
         if st["exit"]:
             args.append(f"exit={names(st['exit'])}")
-        out.append(f"    s{i} = State({', '.join(args)})")
+        return ", ".join(args)
+
+    pre = []
+    if sstyle == "attr":
+        for i in range(sc["n"]):
+            body.append(f"    s{i} = State({state_args(i)})")
+    elif sstyle == "dict":
+        imports.add("States")
+        body.append("    states = States({" + ", ".join(f"'s{i}': State({state_args(i)})" for i in range(sc["n"])) + "})")
+    else:   # enum: names are the state ids, values 1.. are the state values
+        imports.add("States")
+        pre.append("from enum import Enum")
+        pre.append("class SE(Enum):")
+        for i in range(sc["n"]):
+            pre.append(f"    s{i} = {i + 1}")
+        fin = "[" + ", ".join(f"SE.s{i}" for i in sc["finals"]) + "]"
+        body.append(f"    states = States.from_enum(SE, initial=SE.s{sc['initial']}, final={fin})")
     used_events = sorted({e for t in sc["trans"] for e in t["ev"]})
     if style == "obj":
-        out[0] = "from statemachine import Event, State, StateMachine"
+        imports.add("Event")
         for e in used_events:
-            out.append(f"    {evname(e)} = Event()")
-    for j, t in enumerate(sc["trans"]):
-        args = [f"s{t['t']}"]
+            body.append(f"    {evname(e)} = Event()")
+
+    def kwargs_of(t):
+        args = []
         if style == "str":
             args.append("event=" + repr(" ".join(evname(e) for e in t["ev"])))
         elif style == "list":
@@ -314,8 +339,8 @@ def render_source(sc):
             args.append("internal=True")
         if t["val"]:
             args.append(f"validators={names(t['val'])}")
-        conds = [nm for nm, b in t["cond"] if b]
-        unl = [nm for nm, b in t["cond"] if not b]
+        conds = [nm for nm, b_ in t["cond"] if b_]
+        unl = [nm for nm, b_ in t["cond"] if not b_]
         if conds:
             args.append(f"cond={names(conds)}")
         if unl:
@@ -323,13 +348,61 @@ def render_source(sc):
         for key in ("before", "on", "after"):
             if t[key]:
                 args.append(f"{key}={names(t[key])}")
-        call = f"s{t['s']}.to({', '.join(args)})"
-        out.append(f"    tr{j} = {call}" if style == "assign" else f"    {call}")
+        return args
+
+    def same_kw(t, u):
+        return all(t[k] == u[k] for k in ("ev", "int", "val", "cond", "before", "on", "after"))
+
+    temps = style in ("assign", "event_ctor")
+    j = 0
+    trs = sc["trans"]
+    while j < len(trs):
+        t = trs[j]
+        group = [t]
+        if tstyle == "multi" and not temps:
+            while j + len(group) < len(trs) and trs[j + len(group)]["s"] == t["s"] and same_kw(trs[j + len(group)], t):
+                group.append(trs[j + len(group)])
+        elif tstyle == "multi_from" and not temps:
+            while (j + len(group) < len(trs) and trs[j + len(group)]["t"] == t["t"] and same_kw(trs[j + len(group)], t)
+                   and trs[j + len(group)]["s"] not in [g["s"] for g in group]):
+                group.append(trs[j + len(group)])
+        kw = kwargs_of(t)
+        if len(group) > 1 and tstyle == "multi":
+            call = f"{S(t['s'])}.to({', '.join([S(g['t']) for g in group] + kw)})"
+        elif len(group) > 1:
+            call = f"{S(t['t'])}.from_({', '.join([S(g['s']) for g in group] + kw)})"
+        elif tstyle in ("from", "multi_from") and not (t["s"] == t["t"] and sc.get("itself")):
+            call = f"{S(t['t'])}.from_({', '.join([S(t['s'])] + kw)})"
+        elif t["s"] == t["t"] and sc.get("itself"):
+            call = f"{S(t['s'])}.to.itself({', '.join(kw)})"
+        else:
+            call = f"{S(t['s'])}.to({', '.join([S(t['t'])] + kw)})"
+        body.append(f"    tr{j} = {call}" if temps else f"    {call}")
+        j += len(group)
     if style == "assign":
         # event attributes in index order: `go = tr0 | tr3`, then drop the helper names
         for e in used_events:
-            out.append(f"    {evname(e)} = " + " | ".join(f"tr{j}" for j, t in enumerate(sc["trans"]) if e in t["ev"]))
-        out.append("    del " + ", ".join(f"tr{j}" for j in range(len(sc["trans"]))))
+            body.append(f"    {evname(e)} = " + " | ".join(f"tr{j}" for j, t in enumerate(trs) if e in t["ev"]))
+        body.append("    del " + ", ".join(f"tr{j}" for j in range(len(trs))))
+    elif style == "event_ctor":
+        imports.add("Event")
+        for e in used_events:
+            tl = " | ".join(f"tr{j}" for j, t in enumerate(trs) if e in t["ev"])
+            body.append(f"    {evname(e)} = Event({tl}, name={evname(e)!r})")
+        body.append("    del " + ", ".join(f"tr{j}" for j in range(len(trs))))
+    out[0] = "from statemachine import " + ", ".join(sorted(imports - {"States"}))
+    if "States" in imports:
+        pre.insert(0, "from statemachine.states import States")
+    out += pre
+    if inherit:
+        out.append("class Base(StateMachine):")
+        out += body
+        out.append("")
+        out.append("class M(Base):")
+        out.append("    pass")
+    else:
+        out.append("class M(StateMachine):")
+        out += body
     out += methods(0, sc["provs"][0])
     if inst:
         out.append("    def __init__(self, *a, **k):")
